@@ -252,5 +252,11 @@ pub fn __vx_char_indices(s: &str) -> (r: Vec<(usize, char)>)
         forall|k: int| 0 <= k < r@.len() ==> (#[trigger] r@[k]).0 as int == byte_off(s@, k) && r@[k].1 == s@[k],
 { s.char_indices().collect() }
 
+/// trusted: `a.eq(&b)` on characters is `a == b` (std: impl PartialEq for char; vstd leaves the method form open)
+pub broadcast axiom fn axiom_char_eq_obeys()
+    ensures #[trigger] <char as vstd::std_specs::cmp::PartialEqSpec<char>>::obeys_eq_spec();
+pub broadcast axiom fn axiom_char_eq(a: &char, b: &char)
+    ensures #[trigger] <char as vstd::std_specs::cmp::PartialEqSpec<char>>::eq_spec(a, b) == (*a == *b);
+pub broadcast group group_char_eq { axiom_char_eq_obeys, axiom_char_eq }
 } // verus!
 } // mod vx_utf8
